@@ -2,3 +2,5 @@ import Model.Num
 import Model.Rainflow.Turns
 import Model.Rainflow.Detectors
 import Model.Rainflow.Spec
+import Model.HCM
+import Model.FkmNonlinear
